@@ -137,6 +137,12 @@ def parseFrame (s : String) : Option Frame :=
 def parseWire (s : String) : Option Wire :=
   if s == "eof" then some .eof else if s == "big" then some .badSize else (parseFrame s).map .frame
 
+def parseDispEv (s : String) : Option DispEv :=
+  if s == "q" then some .send
+  else match natAfter "c" s with
+    | some k => some (.cancel k)
+    | none => (natAfter "r" s).map .reply
+
 def parseSerfEv (s : String) : Option SerfEv :=
   if s == "u" then some .other
   else match s.splitOn ":" with
@@ -208,6 +214,10 @@ def step (cfg : Cfg) (line : String) : String :=
     | none => bad
   | ["rid", w] => match parseWire w with
     | some w => (receiveID cfg w).show
+    | none => bad
+  | ["disp", evs] =>
+    match (parts ";" evs).mapM parseDispEv with
+    | some es => showOuts (dispRun cfg {} es).2
     | none => bad
   | ["mdisp", m] =>
     if m == "nil" then (messageDispatch cfg .nilMsg).show
